@@ -14,7 +14,7 @@ RULE = ("(c) schedules: for a tree whose 5 (quick) / 6 (thorough) files all pass
         "seam at a time, plus {identity, reverse}^4 across the seams, and the same for a tree with hard links next to a copy under "
         "--rf-under 3 / --rf-over 2 / --rf-under 2 (all 5! orders per seam); (a) every --threads spec name in {none, main, "
         "default, ssd} x (r,s) in {0,1,2,64}^2 and pairs main:x + default:y; (b) every permutation of 3-4 roots and "
-        "--stdin; (d) hash function x --max-prefix-size x --max-suffix-size x disk kind x cache. A state is one complete "
+        "--stdin, and overlapping roots (r, r/sub) in both orders x walking-pool sizes x {--depth 1/2, --hidden, -L}; (d) hash function x --max-prefix-size x --max-suffix-size x disk kind x cache. A state is one complete "
         "execution of the real binary under one schedule/configuration; transitions are the messages delivered at the "
         "seams. Invariant: report body (lengths, hashes, paths, order) byte-identical within (a)-(c); partition into "
         "groups identical within (d); every run ends within 120 s.")
@@ -80,6 +80,9 @@ def cases(tier, seed):
         for ch in range(0, len(specs), 8):
             out.append({"kind": "threads", "tree": t, "specs": specs[ch:ch + 8]})
     out.append({"kind": "roots", "tree": "multi"})
+    # overlapping input paths: the result may depend neither on their order nor on the size of the walking pool
+    for extra in ([], ["--depth", "1"], ["--depth", "2"], ["--hidden"], ["-L"]):
+        out.append({"kind": "overlap", "tree": "overlap", "extra": extra})
     hashes = ["metro", "blake3"] if quick else ["metro", "xxhash", "blake3", "sha256", "sha512", "sha3-256", "sha3-512"]
     cfgs = []
     for h in hashes:
@@ -101,11 +104,21 @@ def cases(tier, seed):
     return out
 
 
+OVERLAP = [
+    {"p": "r/a1", "k": "file", "c": ["lit", "aaaa"]}, {"p": "r/sub/a2", "k": "file", "c": ["lit", "aaaa"]},
+    {"p": "r/sub/y1", "k": "file", "c": ["lit", "yyyy"]}, {"p": "r/sub/y2", "k": "file", "c": ["lit", "yyyy"]},
+    {"p": "r/sub/deep/z1", "k": "file", "c": ["lit", "zzzz"]}, {"p": "r/sub/deep/z2", "k": "file", "c": ["lit", "zzzz"]},
+    {"p": "r/.gitignore", "k": "file", "c": ["lit", "deep/\n"]}, {"p": "r/other/z3", "k": "file", "c": ["lit", "zzzz"]},
+]
+
+
 def tree_of(name):
-    return {"seam5": SEAM_TREE_5, "seam6": SEAM_TREE_6, "multi": MULTI, "seamlinks": SEAM_TREE_LINKS}[name]
+    return {"seam5": SEAM_TREE_5, "seam6": SEAM_TREE_6, "multi": MULTI, "seamlinks": SEAM_TREE_LINKS, "overlap": OVERLAP}[name]
 
 
 def roots_of(name):
+    if name == "overlap":
+        return ["r", "r/sub"]
     return ["r1", "r2", "r3", "r4"] if name == "multi" else ["r"]
 
 
@@ -126,7 +139,7 @@ def evaluate(case):
     keys = []
     with C.Scratch() as sc:
         C.make_tree(sc.tree, tree_of(case["tree"]))
-        roots = case.get("args", []) + roots_of(case["tree"])
+        roots = case.get("args", []) + case.get("extra", []) + roots_of(case["tree"])
         env0 = {"FCLONES_VERIF_DISK_KIND": "ssd"}
         err, base = run(sc, roots, env0)
         if err:
@@ -134,6 +147,10 @@ def evaluate(case):
 
         def check(label, args, env, what, stdin=b"", partition_only=False):
             nonlocal states
+            extra_feat = {}
+            if what == "overlapping_roots":
+                extra_feat = {"follow_links": "-L" in args, "ignore_file_above_inner_root": True,
+                              "depth_set": "--depth" in args}
             e, body = run(sc, args, env, stdin)
             states += 1
             keys.append([case["kind"], case["tree"], label])
@@ -150,7 +167,7 @@ def evaluate(case):
                     viol.append({"kind": "partition_differs", "what_varied": what,
                                  "detail": "%s %s: %s instead of %s" % (args, env, a, b2)})
             elif body != base:
-                viol.append({"kind": "body_differs", "what_varied": what,
+                viol.append({"kind": "body_differs", "what_varied": what, **extra_feat,
                              "detail": "%s %s: %s instead of %s" % (args, env, [(l, h[:8], [os.path.basename(x) for x in p]) for l, h, p in body],
                                                                      [(l, h[:8], [os.path.basename(x) for x in p]) for l, h, p in base])})
 
@@ -192,6 +209,16 @@ def evaluate(case):
                 transitions += 1
             for sub in (("r1", "r2", "r3"), ("r3", "r1", "r2"), ("r2", "r3", "r1")):
                 pass
+        elif case["kind"] == "overlap":
+            base_roots = roots_of(case["tree"])
+            for order in (base_roots, list(reversed(base_roots)), base_roots + ["r/sub/deep"], ["r/sub/deep"] + base_roots):
+                if order != base_roots and set(order) != set(base_roots):
+                    # a different SET of roots is a different question: compare such orders among themselves only
+                    continue
+                for spec in ([], ["-t", "1"], ["-t", "main:1"], ["-t", "2"], ["-t", "main:64"]):
+                    check("overlap:%s:%s:%s" % (" ".join(case["extra"]), " ".join(order), " ".join(spec)),
+                          spec + case["extra"] + order, env0, "overlapping_roots")
+                    transitions += 1
         elif case["kind"] == "config":
             for args, disk in case["cfgs"]:
                 rep = 2 if "--cache" in args else 1
@@ -206,7 +233,7 @@ def evaluate(case):
 
 def finish(stats, tier):
     out = []
-    for k in ("seam", "cross_seam", "threads", "roots", "config"):
+    for k in ("seam", "cross_seam", "threads", "roots", "config", "overlap"):
         if not stats["outcomes"].get(k):
             out.append("no %s case ran" % k)
     return out
